@@ -67,6 +67,9 @@ def run_check(ctx, maxrows, maxth, mode, parts):
             bounds.append((lo, hi))
             lo = hi + 1
         jobs = [[os.path.join(rd, "t%d.ndjson" % i), lo, hi, maxth, ctx.seed, mode] for i, (lo, hi) in enumerate(bounds)]
+        # thread counts beyond the exhaustive grid ("every requested thread count, including counts larger than the number of rows")
+        for i, r in enumerate([33, 48, 64, 100] if ctx.quick else []):
+            jobs.append([os.path.join(rd, "w%d.ndjson" % i), r, r, 64, ctx.seed + 7, "slices"])
         res = hrun.run_many(exe, jobs, timeout=2400)
         events = []
         for j, h in zip(jobs, res):
@@ -111,7 +114,7 @@ def run_check(ctx, maxrows, maxth, mode, parts):
             ctx.violation(sig, what, dict(kind="event", event=ev))
             return lambda e: _sig(e)[0] == sig
         trace.check_trace(ctx, "TraceSlicing", "Trace_Slicing.cfg", "Trace_Slicing_prop.cfg", events, on_reject, drop="event", label="trace_slicing")
-        ctx.traces(len(bounds))
+        ctx.traces(len(jobs))
         # binding self-test: shorten one recorded range / flip one flag -> must be rejected
 
         def corrupt(ev):
